@@ -54,6 +54,8 @@ impl<'a> BlockFiltersProcess<'a> {
             return Status::ok();
         };
 
+        #[cfg(feature = "verif")]
+        crate::verif_hooks::at(crate::verif_hooks::Point::LockIntent("filter.block_filters"));
         let mut matched_blocks = self
             .filter
             .peers
